@@ -398,6 +398,60 @@ def shard_files(sh):
 
 
 # ------------------------------------------------------------------ driver
+def check_freefield(res):
+    """free-field (comma) cards written by hand with full-precision numbers: physical lines of every length from short to
+    well beyond 72 / 80 columns, on the first line and on continuation lines; every value is read back as Python reads
+    its text"""
+    from pyyeti.nastran import bulk
+
+    msgs = []
+    vals = [-2.718281828459e-07, 3.141592653589793, -1.0e-300, 6.02214076e+23, 12345678.901234567, -0.000123456789012, 299792458.5, -9.80665, 1.6180339887498949, 42.25]  # (every text form has a decimal point or an exponent: reals)
+    for nf, fmt, ncards in itertools.product((1, 3, 5, 8, 9, 16, 17), ("%.6g", "%.12g", "%.17g", "%r"), (1, 2)):
+        fields = [vals[i % len(vals)] * (1 + 0.125 * (i // len(vals))) for i in range(nf)]
+        txt = ""
+        for c in range(ncards):
+            cur = ["MYCARD", str(7 + c)]  # an integer id first
+            lines = []
+            for i, v in enumerate(fields):
+                if len(cur) == 9:
+                    lines.append(",".join(cur))
+                    cur = [""]
+                cur.append(fmt % v)
+            lines.append(",".join(cur))
+            txt += "\n".join(lines) + "\n"
+        want = [float(fmt % v) for v in fields]
+        if any(("." not in (fmt % v)) and ("e" not in (fmt % v)) for v in fields):
+            continue  # a text without decimal point or exponent is an integer field
+        maxlen = max(len(l) for l in txt.splitlines())
+        res.ev("freefield/nf%d/%s/len%s" % (nf, fmt, "le72" if maxlen <= 72 else "le80" if maxlen <= 80 else "gt80"))
+        try:
+            with warnings.catch_warnings():
+                warnings.simplefilter("ignore")
+                got = bulk.rdcards(io.StringIO(txt), "mycard", return_var="list")
+        except Exception as e:  # noqa
+            msgs.append(("freefield", "rdcards raised %r on a free-field card with lines up to %d characters" % (e, maxlen)))
+            continue
+        if got is None or len(got) != ncards:
+            msgs.append(("freefield", "rdcards found %s free-field cards, %d written (lines up to %d characters)" % (None if got is None else len(got), ncards, maxlen)))
+            continue
+        for c, row in enumerate(got):
+            row = list(row)
+            while row and row[-1] == "":
+                row.pop()
+            if row[:1] != [7 + c] or len(row) != nf + 1 or any(not isinstance(g, float) or g != w for g, w in zip(row[1:], want)):
+                msgs.append(("freefield", "free-field card #%d with %d reals written as %s (lines up to %d characters) reads back as %s; written %s" % (c + 1, nf, fmt, maxlen, row[:6], ([7 + c] + want)[:6])))
+                break
+    return msgs
+
+
+def shard_freefield(sh):
+    res = Result()
+    for tag, m in check_freefield(res):
+        res.viol(dict(part="freefield"), m, kind="freefield-" + m.split()[1])
+    res.sample(dict(part="freefield"))
+    return res
+
+
 def shards(tier, seed):
     exps = list(range(-324, 309))
     n = 48
@@ -405,6 +459,7 @@ def shards(tier, seed):
     out.append(dict(part="cards", which="short", tier=tier))
     out.append(dict(part="cards", which="long", tier=tier))
     out.append(dict(part="files", tier=tier))
+    out.append(dict(part="freefield", tier=tier))
     for first in range(len(COLLIDE)):
         out.append(dict(part="collide", first=first))
     r = seed % len(out)
@@ -412,13 +467,15 @@ def shards(tier, seed):
 
 
 def run_shard(sh):
-    return {"floats": shard_floats, "cards": shard_cards, "files": shard_files, "collide": shard_collide}[sh["part"]](sh)
+    return {"floats": shard_floats, "cards": shard_cards, "files": shard_files, "collide": shard_collide, "freefield": shard_freefield}[sh["part"]](sh)
 
 
 def replay(case):
     from pyyeti.nastran import bulk
 
     res = Result()
+    if case["part"] == "freefield":
+        return [m for t, m in check_freefield(res)]
     if case["part"] == "float":
         return check_float(case["x"], case["fn"], getattr(bulk, case["fn"]), res)[0]
     if case["part"] == "collide":
